@@ -176,6 +176,10 @@ def oracle(c, r):
     """the property read directly off what the real code did; returns [(signature, what)]"""
     fails = []
     overl = c.get("race", 0) + sum(b["k"] for b in c.get("body", [])) + c.get("cleanup", 0)
+    if r["hang"] and c.get("real"):
+        return [("hang-real-resources-%s-sender-%s" % (r["hang"], c.get("sender") or "none"),
+                 "over a real FailureDetector + local TCP mailbox (remote sender: %s) a Run or Stop call did not return within the deadline (phase %s, %d Stops)"
+                 % (c.get("sender") or "none", r["hang"], c["real"]))]
     if r["hang"]:
         cls = "stops-overlapping-run" if overl >= 2 else "few-stops"
         fails.append(("hang-%s-%s" % (r["hang"], cls), "a Run or Stop call did not return within the deadline (phase %s, %d Stops overlapping the run)" % (r["hang"], overl)))
@@ -263,9 +267,12 @@ def run(ctx):
         cases = corpus()
         for i in range(n):
             cases.append(gen_case(rng, ctx.tier))
-        for i in range(3 if ctx.tier == "quick" else 30):
-            # real FailureDetector + local TCP mailbox under k Stops at once (oracle only, the model has no part in these)
-            cases.append({"real": rng.randint(1, 8), "plan": [], "rerun_at": -1})
+        senders = ["abort_retry", "abort_only", "plain", ""]
+        for i in range(4 if ctx.tier == "quick" else 32):
+            # real FailureDetector + local TCP mailbox under k Stops at once (oracle only, the model has no part in these);
+            # before the Stops a remote sender (the real remote mailbox resource) has an exchange with the local mailbox:
+            # committed, aborted after its PreCommit was acknowledged and retried on the same connection, or aborted for good
+            cases.append({"real": rng.randint(1, 8), "sender": senders[i % 4], "plan": [], "rerun_at": -1})
     for i, c in enumerate(cases):
         c["id"] = i
         c.setdefault("rerun_at", -1)
@@ -290,6 +297,8 @@ def run(ctx):
             ctx.failures.append({"signature": sig, "what": what, "case": c, "obs": r})
         if c.get("real"):
             dist["real_resource_cases"] = dist.get("real_resource_cases", 0) + 1
+            key = "real_sender_" + (c.get("sender") or "none")
+            dist[key] = dist.get(key, 0) + 1
             dist["max_stops"] = max(dist["max_stops"], r["stops_issued"])
             continue
         if c.get("pre_panic"):
